@@ -86,12 +86,26 @@ def cancel_error():
     return AwsCrtError(code=14343, name='AWS_ERROR_S3_CANCELED', message='Request successfully cancelled')
 
 
+class StubFuture(Future):
+    """result() on a pending future would block the only thread there is:
+    the client's would_block hook (if any) is called instead of waiting."""
+    _client = None
+
+    def result(self, timeout=None):
+        hook = self._client.would_block if self._client is not None else None
+        if hook is not None and timeout is None and not self.done():
+            hook('finished_future.result()')
+        return super().result(timeout)
+
+
 class S3Request:
     def __init__(self, client, index, kwargs):
         self._client = client
         self.index = index
         self.kwargs = kwargs
-        self.finished_future = Future()
+        self.finished_future = StubFuture()
+        self.finished_future._client = client
+        self.delivered = False
         self.cancel_requested = False
         self.finished = False
         self.on_done_exception = None
@@ -123,6 +137,9 @@ class S3Request:
 
     def deliver(self):
         """Second half of _on_finish: on_done(error=..., ...)."""
+        if not self.finished or self.delivered:
+            raise RuntimeError('stub CRT: on_done runs once, after the future is resolved')
+        self.delivered = True
         error = self._error
         on_done = self.kwargs.get('on_done')
         if on_done is None:
@@ -144,7 +161,8 @@ class S3Client:
         self.cancels = []
         self.fail_next = None    # exception instance: next make_request raises it
         self.sync_cancel = False
-        self.on_finish = None    # hook(request, error) run at the start of finish()
+        self.on_finish = None    # hook(request, error) run at the start of resolve()
+        self.would_block = None  # hook(what): a wait on a pending finished_future
 
     def make_request(self, **kwargs):
         self.calls.append(kwargs)
